@@ -2,6 +2,7 @@ package rules
 
 import (
 	"github.com/vektah/gqlparser/v2/ast"
+	"github.com/vektah/gqlparser/v2/verifhook"
 
 	//nolint:staticcheck // Validator rules each use dot imports for convenience.
 	. "github.com/vektah/gqlparser/v2/validator"
@@ -64,6 +65,7 @@ func checkDepthField(field *ast.Field, visitedFragments map[string]bool, depth i
 }
 
 func checkDepthFragmentSpread(fragmentSpread *ast.FragmentSpread, visitedFragments map[string]bool, depth int) bool {
+	verifhook.Step(verifhook.SiteIntrospectionDepthSpread)
 	fragmentName := fragmentSpread.Name
 	if visited, ok := visitedFragments[fragmentName]; ok && visited {
 		// Fragment cycles are handled by `NoFragmentCyclesRule`.
